@@ -294,7 +294,8 @@ def run_property(mod, pid, tier, vseed, nworkers=None, only_sub=None, extra_stat
         for c in (sub.configs if tier == "quick" else sub.thorough_configs):
             cfgs.add(c.split(":")[0])
     for c in sorted(cfgs):
-        build.build_shim(c)
+        if c in build.CONFIGS:
+            build.build_shim(c)
     if hasattr(mod, "prebuild"):
         mod.prebuild(tier)
 
